@@ -147,6 +147,8 @@ class BytesShim(metaclass=_BytesMeta):
             return SBytes(list(x))
         if isinstance(x, SInt):
             return bytes(x.concretize())
+        if not a and not isinstance(x, (bytes, bytearray, memoryview, str, int, list, tuple)) and hasattr(type(x), '__bytes__'):
+            return type(x).__bytes__(x)          # python-level __bytes__ may hand back proxies
         return bytes(x, *a)
 
     @staticmethod
@@ -318,7 +320,7 @@ class SBytesIO:
             n = n.concretize()
         if n is None or n < 0:
             n = len(self.d) - self.p
-        r = SBytes(self.d.b[self.p:self.p + n])
+        r = SBytes._norm(self.d.b[self.p:self.p + n])
         self.p = min(len(self.d), self.p + n)
         return r.lower_if_concrete()
 
